@@ -196,7 +196,45 @@ def _run_server_tls_case(case, watchdog):
     return out, True
 
 
+def run_server_noread_case(case, watchdog):
+    """The client pipelines commands without end and never reads a reply: the server's writes must not block it forever."""
+    queue = sm.CaptureQueue()
+    edge = SmtpEdge(None, queue, hostname='edge', command_timeout=CMD_T * 2, data_timeout=DATA_T * 2)
+    a, b = gsocket.socketpair()
+    g = gevent.spawn(lambda: edge.handle(a, ('10.0.0.1', 1)))
+    out = []
+    t0 = time.time()
+
+    def flood():
+        try:
+            b.sendall(b'EHLO c.example\r\n')
+            line = {'noop': b'NOOP\r\n', 'ehlo': b'EHLO again.example\r\n', 'bad': b'FOOBAR\r\n'}[case['what']]
+            for _ in range(4000):
+                b.sendall(line * 50)
+        except Exception:
+            pass
+    c = gevent.spawn(flood)
+    try:
+        g.join(timeout=max(watchdog, 4.0))
+        if not g.dead:
+            out.append(('C14:server-session-outlives-timeouts:peer-never-reads',
+                        '%r: session still open %.1f s after the peer stopped reading the replies (command timeout %.2f)'
+                        % (case, time.time() - t0, CMD_T * 2)))
+    finally:
+        for x in (g, c):
+            if not x.dead:
+                x.kill(block=False)
+        for s_ in (a, b):
+            try:
+                s_.close()
+            except Exception:
+                pass
+    return out, True
+
+
 def server_cases():
+    for what in ('noop', 'ehlo', 'bad'):
+        yield {'family': 'server-noread', 'what': what}
     for how in ('immediate', 'starttls'):
         for mode in ('silent', 'partial'):
             yield {'family': 'server-tls', 'how': how, 'mode': mode}
@@ -687,7 +725,7 @@ def other_cases():
         yield {'family': 'http', 'mode': mode}
 
 
-RUN = {'server': run_server_case, 'server-tls': run_server_tls_case, 'client': run_client_case, 'client-idle': run_client_idle_case, 'pipe': run_pipe_case,
+RUN = {'server': run_server_case, 'server-tls': run_server_tls_case, 'server-noread': run_server_noread_case, 'client': run_client_case, 'client-idle': run_client_idle_case, 'pipe': run_pipe_case,
        'http': run_http_case, 'http-reuse': run_http_reuse_case}
 
 
@@ -730,6 +768,9 @@ def replay(case):
                 return []
         elif fam == 'http' and case.get('mode') not in ('silent', 'trickle', 'trickle-headers'):
             return []
+        elif fam == 'server-noread':
+            if case.get('what') not in ('noop', 'ehlo', 'bad'):
+                return []
         elif fam == 'server-tls':
             if case.get('how') not in ('immediate', 'starttls') or case.get('mode') not in ('silent', 'partial'):
                 return []
